@@ -38,6 +38,13 @@ def run_lines(ctx, n, drv=None):
             ctx.nontrivial(('lines', e))
         if e != o:
             mm.append(Mismatch('lines', i, dict(text=s, cps=[ord(c) for c in s]), e, o))
+        else:
+            # the other path of split_lines (keepends=False) must be the same lines without their \n / \r\n / \r ending
+            kept = split_lines(s, keepends=True)
+            stripped = [l[:-2] if l.endswith('\r\n') else l[:-1] if l.endswith(('\n', '\r')) else l for l in kept]
+            plain = split_lines(s)
+            if plain != stripped:
+                mm.append(Mismatch('lines', i, dict(text=s, cps=[ord(c) for c in s], path='keepends=False'), repr(stripped), repr(plain)))
     if cases:
         ctx.sample(dict(stream='lines', input=cases[0], answer=impl.ans_lines(cases[0])))
     return mm
